@@ -8,7 +8,7 @@ use crate::hv::e1::Ctx;
 use crate::hv::isa::{Fields, Isa};
 use crate::hv::shard::Unit;
 use serde_json::json;
-use std::io::{BufRead, BufReader, Write};
+use std::io::Write;
 
 fn scratch(tag: &str) -> std::path::PathBuf {
     crate::hv::shard::verif_dir().join(".work").join(format!("e6-{}-{}.elf", std::process::id(), tag))
@@ -25,7 +25,7 @@ pub fn c13_unit() -> Unit {
             let bin = match repo_binary() {
                 Some(b) => b,
                 None => {
-                    ctx.custom_violation("c13", "MACHINERY: VERIF_REPO_BIN not set / repository binary not built".into(), json!({}), json!(null), json!(null));
+                    ctx.machinery("VERIF_REPO_BIN not set / repository binary not built".into());
                     return;
                 }
             };
@@ -76,7 +76,7 @@ pub fn c13_unit() -> Unit {
                             );
                         }
                     }
-                    Err(e) => ctx.custom_violation("c13", format!("MACHINERY: cannot run the binary: {}", e), case, json!(null), json!(null)),
+                    Err(e) => ctx.machinery(format!("cannot run the binary: {}", e)),
                 }
             }
             ctx.sample(json!({"real_binary": true, "shape": shape, "n": n}));
@@ -130,7 +130,7 @@ pub fn c18_unit() -> Unit {
             let bin = match repo_binary() {
                 Some(b) => b,
                 None => {
-                    ctx.custom_violation("c18", "MACHINERY: VERIF_REPO_BIN not set / repository binary not built".into(), json!({}), json!(null), json!(null));
+                    ctx.machinery("VERIF_REPO_BIN not set / repository binary not built".into());
                     return;
                 }
             };
@@ -148,7 +148,7 @@ pub fn c18_unit() -> Unit {
             let mut child = match child {
                 Ok(c) => c,
                 Err(e) => {
-                    ctx.custom_violation("c18", format!("MACHINERY: cannot start the binary: {}", e), json!({}), json!(null), json!(null));
+                    ctx.machinery(format!("cannot start the binary: {}", e));
                     return;
                 }
             };
@@ -163,26 +163,31 @@ pub fn c18_unit() -> Unit {
             let mut verdict: Option<String> = None;
             let mode = chunk; // 0: one write per batch, 1: one write per line, 2: one write per byte
             if let Some(mut s) = stream {
-                let _ = s.set_read_timeout(Some(std::time::Duration::from_secs(15)));
-                let mut rd = BufReader::new(s.try_clone().unwrap());
-                let mut read_line = |rd: &mut BufReader<std::net::TcpStream>| -> Option<String> {
-                    // overall deadline: the heartbeat lines keep arriving, so a per-read timeout alone never fires
+                // loss-free line reader: bytes are accumulated across read time-outs (a BufReader drops the
+                // partial line when a timed read fails in the middle of it)
+                let _ = s.set_read_timeout(Some(std::time::Duration::from_millis(50)));
+                let mut rs = s.try_clone().unwrap();
+                let mut acc: Vec<u8> = Vec::new();
+                // next non-heartbeat line within `ms` milliseconds
+                let mut next_line = |ms: u64| -> Option<String> {
+                    use std::io::Read;
                     let t0 = std::time::Instant::now();
                     loop {
-                        if t0.elapsed().as_secs() >= 12 {
-                            return None;
-                        }
-                        let mut l = String::new();
-                        match rd.read_line(&mut l) {
-                            Ok(0) => return None,
-                            Ok(_) => {
-                                let l = l.trim_end_matches('\n').to_string();
-                                if l.starts_with("sync:") {
-                                    continue; // time-base heartbeats
-                                }
+                        while let Some(p) = acc.iter().position(|&b| b == b'\n') {
+                            let line: Vec<u8> = acc.drain(..=p).collect();
+                            let l = String::from_utf8_lossy(&line[..line.len() - 1]).to_string();
+                            if !l.starts_with("sync:") {
                                 return Some(l);
                             }
-                            Err(_) => return None,
+                        }
+                        if t0.elapsed().as_millis() as u64 >= ms {
+                            return None;
+                        }
+                        let mut tmp = [0u8; 4096];
+                        match rs.read(&mut tmp) {
+                            Ok(0) => return None,
+                            Ok(n) => acc.extend_from_slice(&tmp[..n]),
+                            Err(_) => {}
                         }
                     }
                 };
@@ -209,7 +214,7 @@ pub fn c18_unit() -> Unit {
                 };
                 let u8line = |v: u8| format!("u8:{:x}:{:x}", cell, v);
                 // 1. ready, and nothing happens before cmd:start
-                match read_line(&mut rd) {
+                match next_line(20_000) {
                     Some(l) if l == "ready" => {}
                     other => verdict = Some(format!("expected the `ready` announcement first, got {:?}", other)),
                 }
@@ -221,7 +226,7 @@ pub fn c18_unit() -> Unit {
                         if i > 0 {
                             send(&mut s, &["".into(), u8line(*byte), "ioport:1".into()]);
                         }
-                        match read_line(&mut rd) {
+                        match next_line(20_000) {
                             Some(l) if l == *wire => {}
                             other => {
                                 verdict = Some(format!("after poking byte {:02x} the socket delivered {:?}, expected the single line {:?}", byte, other, wire));
@@ -235,26 +240,12 @@ pub fn c18_unit() -> Unit {
                 if verdict.is_none() {
                     // 3. pause: a poke while paused must not be consumed until start
                     send(&mut s, &["cmd:pause".into(), u8line(b'P')]);
-                    // while paused no instruction runs, so neither guest output nor heartbeats may arrive:
-                    // listen for 400 ms (heartbeats already in flight are tolerated, guest output is not)
-                    let _ = s.set_read_timeout(Some(std::time::Duration::from_millis(100)));
-                    let tq = std::time::Instant::now();
-                    while tq.elapsed().as_millis() < 400 {
-                        let mut l = String::new();
-                        match rd.read_line(&mut l) {
-                            Ok(n) if n > 0 => {
-                                if !l.starts_with("sync:") {
-                                    verdict = Some(format!("execution was paused, yet the guest answered {:?}", l.trim_end()));
-                                    break;
-                                }
-                            }
-                            _ => {}
-                        }
+                    if let Some(l) = next_line(500) {
+                        verdict = Some(format!("execution was paused, yet the guest answered {:?}", l));
                     }
-                    let _ = s.set_read_timeout(Some(std::time::Duration::from_secs(15)));
                     if verdict.is_none() {
                         send(&mut s, &["cmd:start".into()]);
-                        match read_line(&mut rd) {
+                        match next_line(20_000) {
                             Some(l) if l == "stdout:P" => {}
                             other => verdict = Some(format!("after cmd:start the paused poke should be answered with stdout:P, got {:?}", other)),
                         }
@@ -263,7 +254,7 @@ pub fn c18_unit() -> Unit {
                 if verdict.is_none() {
                     // 4. last byte: the guest exits, the process ends normally and closes the socket
                     send(&mut s, &[u8line(b'Z')]);
-                    match read_line(&mut rd) {
+                    match next_line(20_000) {
                         Some(l) if l == "stdout:Z" => {}
                         other => verdict = Some(format!("expected stdout:Z, got {:?}", other)),
                     }
@@ -295,7 +286,11 @@ pub fn c18_unit() -> Unit {
             ctx.st.cases += 1;
             ctx.st.nontrivial += 1;
             if let Some(m) = verdict {
-                ctx.custom_violation("c18", m, json!({"framing": "real-binary", "mode": mode}), json!(null), json!(null));
+                if let Some(mm) = m.strip_prefix("MACHINERY: ") {
+                    ctx.machinery(mm.to_string());
+                } else {
+                    ctx.custom_violation("c18", m, json!({"framing": "real-binary", "mode": mode}), json!(null), json!(null));
+                }
             }
             ctx.sample(json!({"real_binary": true, "chunking_mode": mode}));
         },
